@@ -42,4 +42,26 @@ PROPS = {
         ],
         "partial": ["for follow_dynamic = true only C02_reachable_failure_not_skipped_outside_known_class is proved; the iff is refuted (F-C02a)"],
     },
+    "C14": {
+        "harness": "c14",
+        "props_file": "Props/C14.v",
+        "run_module": "Model.Graph Model.Walk Model.RunC15 Model.RunC02 Model.RunC14",
+        "run_fn": "run_c14",
+        "pinned_theorems": ["C14_resolve_terminates", "C14_resolve_reaches_end", "C14_idempotent", "C14_walk_end",
+                            "C14_agree", "C14_specifiers_one_hop", "C14_prefer_types", "C14_prefer_code",
+                            "C14_cycle_refuted", "C14_ten_hops_refuted", "C14_specifiers_two_hops_refuted",
+                            "C14_shadow_refuted"],
+        "rule": ("worlds built around 1-3 redirect chains of length 1..13 (quick) / 1..26 (thorough), made of loader "
+                 "redirects and/or lockfile-seeded redirects, ending at a module, a missing module, a load error, or "
+                 "cycling back into the chain; loader max_redirects in {3,10,25}; modules import chain heads "
+                 "statically/dynamically/type-only and via @deno-types/@ts-self-types. For EVERY specifier known "
+                 "to the graph the real resolve/get/contains/try_get/try_get_prefer_types and the end of the REAL "
+                 "walk from it are compared with the model's; specifiers() and resolve_dependency(+-types) of every "
+                 "dependency likewise; the extracted decision procedure judges the real lookups against the real "
+                 "walk end. non-trivial = graph with >= 2 redirects"),
+        "assumptions": [
+            "known findings F-C14a (cycle), F-C14b (>9 hops), F-C14c (specifiers() one hop only), F-C14d (entry at a redirect source) are reported as KNOWN-FINDING; the model/implementation comparison of all lookup values is NOT suspended for them",
+        ],
+        "partial": ["agreement with the walk is proved for chains of <= 9 hops without shadowing; the unrestricted statement is refuted (4 witnesses)"],
+    },
 }
